@@ -757,7 +757,40 @@ def ev_keyed(c):
         if got != want:
             return [('C09|fn:bucketize|buckets%s' % shape, show(want), show(got))]
         ks = list(res)
-        return themselves('bucketize', [res[k] for k in ks], [[p for p, i in enumerate(seq) if keys[i] == k] for k in ks])
+        out = themselves('bucketize', [res[k] for k in ks], [[p for p, i in enumerate(seq) if keys[i] == k] for k in ks])
+        if out:
+            return out
+        # the two optional arguments, alone and combined with every key form: value_transform receives the element
+        # itself (never the (key, element) pair of the key=list form), key_filter drops whole buckets and nothing else
+        class Boxed:
+            def __init__(self, inner):
+                self.inner = inner
+        first = seqkeys[0] if seqkeys else None
+        for vt, kf in ((True, False), (False, True), (True, True)):
+            kw2 = dict(kw)
+            if vt:
+                kw2['value_transform'] = Boxed
+            if kf:
+                kw2['key_filter'] = lambda k: not (k == first)
+            r2 = call(I.bucketize, src(), **kw2)
+            want2 = {k: v for k, v in want.items() if not (kf and k == first)}
+            tag = 'C09|fn:bucketize|buckets(%s,%s%s)' % (shape[1:-1], 'value_transform' if vt else '',
+                                                          ('+' if vt else '') + 'key_filter' if kf else '')
+            if not (isinstance(r2, dict) and all(isinstance(v, list) for v in r2.values())):
+                return [(tag, show(want2), show(r2))]
+            if vt:
+                if not all(type(x) is Boxed for v in r2.values() for x in v):
+                    return [(tag + '|transformed-values', 'every bucket item is value_transform(element)', show(r2))]
+                r2 = {k: [x.inner for x in v] for k, v in r2.items()}
+            got2 = {k: labs(v) for k, v in r2.items()}
+            if got2 != want2:
+                return [(tag, show(want2), show(got2))]
+            ks2 = list(r2)
+            out = themselves('bucketize', [r2[k] for k in ks2],
+                             [[p for p, i in enumerate(seq) if keys[i] == k] for k in ks2])
+            if out:
+                return out
+        return []
 
     if fn == 'partition':
         want = ([i for i in seq if keys[i] is True], [i for i in seq if keys[i] is False])
